@@ -84,3 +84,52 @@ theorem fixLeafSize_eq_new (s : SlimMsg) (vals : List Bytes) (w : Nat) (hw : 0 <
   rw [newVLenArray_const vals w hw hne h]
 
 end Legacy
+
+/-! ### the same in terms of the bare byte array -/
+
+namespace Legacy
+
+/-- `n` consecutive slices of width `w` -/
+def chunks (w : Nat) : Nat → Bytes → List Bytes
+  | 0, _ => []
+  | n + 1, bs => bs.take w :: chunks w n (bs.drop w)
+
+theorem chunks_length (w n : Nat) (bs : Bytes) : (chunks w n bs).length = n := by
+  induction n generalizing bs with
+  | zero => rfl
+  | succ n ih => simp [chunks, ih]
+
+theorem chunks_flatten (w n : Nat) (bs : Bytes) (h : bs.length = n * w) :
+    (chunks w n bs).flatten = bs := by
+  induction n generalizing bs with
+  | zero =>
+    have : bs = [] := List.length_eq_zero_iff.mp (by omega)
+    subst this; rfl
+  | succ n ih =>
+    simp only [chunks, List.flatten_cons]
+    rw [ih (bs.drop w) (by rw [List.length_drop, h, Nat.succ_mul]; omega), List.take_append_drop]
+
+theorem chunks_width (w n : Nat) (bs : Bytes) (h : bs.length = n * w) :
+    ∀ v ∈ chunks w n bs, v.length = w := by
+  induction n generalizing bs with
+  | zero => simp [chunks]
+  | succ n ih =>
+    intro v hv
+    simp only [chunks, List.mem_cons] at hv
+    rcases hv with rfl | hv
+    · rw [List.length_take, h, Nat.succ_mul]; omega
+    · exact ih (bs.drop w) (by rw [List.length_drop, h, Nat.succ_mul]; omega) v hv
+
+theorem chunks_getElem (w n : Nat) (bs : Bytes) (i : Nat) (hi : i < (chunks w n bs).length) :
+    (chunks w n bs)[i] = (bs.drop (i * w)).take w := by
+  induction n generalizing bs i with
+  | zero => simp [chunks] at hi
+  | succ n ih =>
+    cases i with
+    | zero => simp [chunks]
+    | succ i =>
+      simp only [chunks, List.getElem_cons_succ]
+      rw [ih (bs.drop w) i (by simpa [chunks] using hi), List.drop_drop, Nat.succ_mul]
+      congr 2; omega
+
+end Legacy
